@@ -1,5 +1,5 @@
 """C03 — network measures equal their published definitions (Engine K part; Engine P part in C03_py)."""
-from .. import kern
+from .. import core, kern
 from . import gk
 
 PROP = "C03"
@@ -41,6 +41,15 @@ def obligations(tier):
             obs.append((gk.ob_cliquishness, dict(name=f"C03|cliquishness4|n=7|node={i}", prop=PROP, order=4, n=7, nodes=[i]), 3000))
     for n in ((3, 4) if not th else (3, 4, 5)):
         obs.append((gk.ob_newman_chunks, dict(name=f"C03|_mpi_newman_betweenness|defining-sum|n={n}", prop=PROP, n=n, nsi=False), 1200))
+    for n in ((3, 4) if not th else (3, 4, 5)):
+        graphs = list(gk.all_graphs(n))
+        if n == 5:
+            import random
+            graphs = random.Random(core.SEED + 3).sample(graphs, 96)
+        step = 8
+        for ci in range(0, len(graphs), step):
+            obs.append((gk.ob_nsi_betw_definition, dict(name=f"C03|_nsi_betweenness|definition|n={n}|graphs#{ci // step}", prop=PROP, n=n,
+                                                        graphs=graphs[ci:ci + step]), 1800))
     try:
         from . import C03_py
         obs.extend(C03_py.obligations(tier))
